@@ -49,6 +49,7 @@ def main():
     ap.add_argument("--tier", default="quick")
     ap.add_argument("--also", default="", help="comma-separated other properties whose check should also be run")
     ap.add_argument("--skip-scratch", action="store_true")
+    ap.add_argument("--via-worktree", action="store_true", help="run the checks with VERIF_REPO=<scratch worktree with the patch> instead of patching /repo (used while other work reads /repo)")
     a = ap.parse_args()
 
     patch = os.path.abspath(a.patch)
@@ -93,20 +94,41 @@ def main():
             return 1
 
     # run our checks against it
-    st = sh("git -C %s status --porcelain --untracked-files=no" % REPO)[1].strip()
-    assert st == "", "/repo has uncommitted changes: " + st
     results = {}
-    try:
-        rc, out = sh("git -C %s apply %s" % (REPO, patch))
+    props = [a.prop] + [p for p in a.also.split(",") if p]
+    if a.via_worktree:
+        wt2 = "/tmp/svr-%s" % a.seed_id
+        sh("git -C %s worktree remove --force %s" % (REPO, wt2))
+        rc, out = sh("git -C %s worktree add --detach %s HEAD" % (REPO, wt2))
         assert rc == 0, out
-        for prop in [a.prop] + [p for p in a.also.split(",") if p]:
-            t0 = time.time()
-            rc, out = sh("./check %s --tier %s" % (prop, a.tier), cwd=VERIF, timeout=7200)
-            vio = [l for l in out.splitlines() if l.startswith("VIOLATION") or l.startswith("KNOWN-FINDING")]
-            results[prop] = {"exit": rc, "lines": vio[:6], "wall_s": round(time.time() - t0, 1), "detail": [l for l in out.splitlines() if l.startswith("  ")][:6]}
-            print(prop, "exit", rc, vio[:3])
-    finally:
-        sh("git -C %s checkout -- ." % REPO)
+        try:
+            rc, out = sh("git apply %s" % patch, cwd=wt2)
+            assert rc == 0, out
+            e = dict(os.environ)
+            e["VERIF_REPO"] = wt2
+            for prop in props:
+                t0 = time.time()
+                r = subprocess.run("./check %s --tier %s" % (prop, a.tier), shell=True, cwd=VERIF, env=e, stdout=subprocess.PIPE, stderr=subprocess.STDOUT, text=True, timeout=7200)
+                rc, out = r.returncode, r.stdout
+                vio = [l for l in out.splitlines() if l.startswith("VIOLATION") or l.startswith("KNOWN-FINDING")]
+                results[prop] = {"exit": rc, "lines": vio[:6], "wall_s": round(time.time() - t0, 1), "detail": [l for l in out.splitlines() if l.startswith("  ")][:6], "how": "VERIF_REPO=scratch worktree with the patch"}
+                print(prop, "exit", rc, vio[:3])
+        finally:
+            sh("git -C %s worktree remove --force %s" % (REPO, wt2))
+    else:
+        st = sh("git -C %s status --porcelain --untracked-files=no" % REPO)[1].strip()
+        assert st == "", "/repo has uncommitted changes: " + st
+        try:
+            rc, out = sh("git -C %s apply %s" % (REPO, patch))
+            assert rc == 0, out
+            for prop in props:
+                t0 = time.time()
+                rc, out = sh("./check %s --tier %s" % (prop, a.tier), cwd=VERIF, timeout=7200)
+                vio = [l for l in out.splitlines() if l.startswith("VIOLATION") or l.startswith("KNOWN-FINDING")]
+                results[prop] = {"exit": rc, "lines": vio[:6], "wall_s": round(time.time() - t0, 1), "detail": [l for l in out.splitlines() if l.startswith("  ")][:6], "how": "git -C /repo apply; ./check; git -C /repo checkout -- ."}
+                print(prop, "exit", rc, vio[:3])
+        finally:
+            sh("git -C %s checkout -- ." % REPO)
     meta["checks"] = results
     meta["caught_by"] = [p for p, r in results.items() if r["exit"] == 1]
     d = os.path.join(VERIF, "seeded", a.seed_id)
